@@ -81,6 +81,7 @@ pub enum St {
     ChunkFreed,
     ErrAfterFault,
     TwinPanic,
+    Handoff,
     N,
 }
 pub const NST: usize = St::N as usize;
@@ -91,7 +92,7 @@ pub const ST_NAMES: [&str; NST] = [
     "rewind_new_chunk", "init_err", "init_kept_block", "fill_fail", "reset", "reset_multi_chunk",
     "reset_partial_chunk", "reset_chunkless", "refill_after_reset", "zst_on_chunkless", "odd_residue_align",
     "two_live_blocks", "capacity_probe", "hand_over", "huge_request", "fit_checked", "chunk_freed",
-    "err_after_fault", "twin_panic",
+    "err_after_fault", "twin_panic", "collection_handoff",
 ];
 
 #[derive(Clone, Debug)]
